@@ -84,7 +84,7 @@ pub fn case(tape: &[u8], ctx: &Ctx) -> Outcome {
                 io.capture = Some(Capture { extra_max: cap3.0, name_max: cap3.1, comm_max: cap3.2, arenas: &ar.aux });
                 // sometimes on a reused stream: part of other untrusted bytes first, abandoned anywhere, inflateReset
                 if reuse {
-                    io.prehistory = Some(Prehistory { bytes: &pre_bytes, calls: pre_calls, in_chunk: pre_in, out_chunk: pre_out });
+                    io.prehistory = Some(Prehistory { bytes: &pre_bytes, calls: pre_calls, in_chunk: pre_in, out_chunk: pre_out, failed_sync: false });
                     entry_name = "inflate + inflateGetHeader on a stream reused after inflateReset";
                 }
                 r = run_inflate::<Rs>(&s.bytes, &sched, &io, ar);
